@@ -45,7 +45,7 @@ def plan(tier, seed):
 def mandatory_bins(tier):
     b = ["curve_roundtrip", "pub_raw", "pub_uncompressed", "pub_compressed", "pub_hybrid", "pub_der_named", "pub_der_explicit", "pub_pem", "priv_raw", "priv_sec1_named", "priv_sec1_explicit",
          "priv_pkcs8_named", "priv_pkcs8_explicit", "priv_pem", "openssl_parses_library_output", "library_parses_openssl_output", "byte_equal_spki", "byte_equal_sec1", "leading_zero_coordinate",
-         "leading_zero_scalar", "small_scalar", "p256_header", "raw_fmt_inverse", "reencode_after_decode", "bec2_raw_key_wrong_length", "bec2_der_input_in_non_canonical_form", "all_prefixes", "appended_suffix", "single_byte_mutations", "pem_cut", "openssl_compressed_spki", "openssl_explicit_params"]
+         "leading_zero_scalar", "small_scalar", "p256_header", "raw_fmt_inverse", "reencode_after_decode", "bec2_raw_key_wrong_length", "bec2_der_input_in_non_canonical_form", "all_prefixes", "appended_suffix", "single_byte_mutations", "pem_cut", "openssl_compressed_spki", "openssl_explicit_params", "explicit_parameters_base_point_form", "pem_text_variants"]
     return b
 
 
@@ -185,12 +185,26 @@ def run_roundtrip(ns, ctx, spec):
                     ctx.bin("byte_equal_spki")
                     if der_ != oder:
                         ctx.violation("spki_bytes_differ_from_openssl:" + form, {"lib": der_, "openssl": oder}, rp)
+                else:
+                    # explicit parameters: OpenSSL adds the optional seed for some curves, so whole-file equality is not required;
+                    # but the base point inside the parameters is written in the same point form as the key (as OpenSSL does)
+                    ctx.bin("explicit_parameters_base_point_form")
+                    genc = ossl.encode_point(name, ossl.point_mul(name, 1), oform)
+                    needle = b"\x04" + (bytes((len(genc),)) if len(genc) < 128 else b"\x81" + bytes((len(genc),))) + genc
+                    if needle not in oder:
+                        raise AssertionError("harness: OpenSSL's explicit parameters do not hold the base point in form %s" % form)
+                    if needle not in der_:
+                        ctx.violation("explicit_parameters_base_point_not_in_the_requested_point_form:" + form, {"lib": der_, "openssl": oder}, rp)
         ctx.bin("pub_pem")
         pem = vk.to_pem()
         expect("pub_pem", lambda: K.VerifyingKey.from_pem(pem), same_pub)
         expect("pub_pem_str", lambda: K.VerifyingKey.from_pem(pem.decode()), same_pub)
         opem = pem_armor(ossl.pub_to_spki(name, pub), "PUBLIC KEY")
         expect("openssl_pub_pem", lambda: K.VerifyingKey.from_pem(opem), same_pub)
+        # the same PEM text with CRLF line ends, with leading text, without the final line end, as str
+        ctx.bin("pem_text_variants")
+        for vn, vt in (("crlf", opem.replace(b"\n", b"\r\n")), ("crlf_str", opem.replace(b"\n", b"\r\n").decode()), ("no_final_newline", opem.rstrip(b"\n"))):
+            expect("openssl_pub_pem_" + vn, lambda vt=vt: K.VerifyingKey.from_pem(vt), same_pub)
         if pem.replace(b"\r", b"").strip() != opem.strip():
             ctx.note("pub_pem_armor_differs_from_standard_64_column_form")
         # ---- private ------------------------------------------------------------------------------------------------------------
@@ -243,6 +257,7 @@ def run_roundtrip(ns, ctx, spec):
             oder = (ossl.priv_to_sec1 if fmt == "ssleay" else ossl.priv_to_pkcs8)(name, d)
             opem = pem_armor(oder, label)
             expect("openssl_priv_pem_" + fmt, lambda: K.SigningKey.from_pem(opem), same_priv)
+            expect("openssl_priv_pem_crlf_" + fmt, lambda: K.SigningKey.from_pem(opem.replace(b"\n", b"\r\n")), same_priv)
             # OpenSSL writes EC PARAMETERS before the key in 'openssl ecparam -genkey' output
             if fmt == "ssleay":
                 oid_der = bytes(ns.der.encode_oid(*cv.oid))
